@@ -36,7 +36,7 @@ ASSUMPTIONS = [
     "fee-less transfers carry nothing to list and are not judged",
 ]
 
-HIST = gen.GenCfg(min_steps=3, max_steps=10, max_exchanges=2, max_holders=1, long_gaps=True, tie_prob=0.15)
+HIST = gen.GenCfg(min_steps=3, max_steps=10, max_exchanges=2, max_holders=1, long_gaps=True, tie_prob=0.15, bulk_prob=0.08)
 FLAVOURS = ("mixed", "mixed", "disposal_years", "transfer_heavy", "fully_sold")
 FIRST_ROW = 21  # 0-based index of spreadsheet row 22
 REL = Fraction(1, 10**12)
@@ -111,11 +111,16 @@ def evaluate(case: Dict[str, Any]) -> Outcome:
     out = Outcome()
     lang = case.get("lang") or "ja"
     out.classes.add(f"lang_{lang}")
+    out.classes |= cli_common.volume_classes(case)
     folder = cli_common.work_dir("c20")
     try:
         result, _ini, _ods, outdir = cli_common.run_case(case, folder)
         rows_model = filegen.case_post_rows(case)
         if result.rc != 0:
+            bucket = cli_common.aborted_in(result.text, "/tax_report_jp.py")
+            if bucket:
+                out.fail("jp_report_generation_aborted", f"rp2_jp exited {result.rc} while writing tax_report_jp: {bucket}")
+                return out
             out.skipped = "run_failed(C16)"
             return out
         t = report_model.translator(lang)
